@@ -1,6 +1,7 @@
 package pppoe
 
 import (
+	"bytes"
 	"context"
 	"crypto/rand"
 	"encoding/binary"
@@ -452,6 +453,15 @@ func (s *Server) handlePADT(clientMAC net.HardwareAddr, sessionID uint16) {
 		return
 	}
 
+	// Only the station that owns the session may terminate it
+	if !bytes.Equal(session.ClientMAC, clientMAC) {
+		s.logger.Warn("PADT from a MAC that does not own the session",
+			zap.Uint16("session_id", sessionID),
+			zap.String("client_mac", clientMAC.String()),
+		)
+		return
+	}
+
 	s.logger.Info("PPPoE session terminated by client",
 		zap.Uint16("session_id", sessionID),
 		zap.String("client_mac", clientMAC.String()),
@@ -479,6 +489,16 @@ func (s *Server) handleSession(clientMAC net.HardwareAddr, data []byte) {
 
 	session := s.sessions.GetSession(hdr.SessionID)
 	if session == nil {
+		return
+	}
+
+	// A session is identified by its id AND the client's MAC (RFC 2516 5.5):
+	// frames from any other station are not part of it
+	if !bytes.Equal(session.ClientMAC, clientMAC) {
+		s.logger.Debug("Session frame from a MAC that does not own the session",
+			zap.Uint16("session_id", hdr.SessionID),
+			zap.String("client_mac", clientMAC.String()),
+		)
 		return
 	}
 
